@@ -53,7 +53,7 @@ REC_CFG = """SPECIFICATION Spec
 CONSTANTS
   Keys = %s
   Labels = {0, 1}
-  Filters = {"null", "all", "lx1", "lx0", "fnx0", "nlx1", "nsa"}
+  Filters = {"null", "all", "lx1", "lx0", "fnx0", "nlx1", "nsa", "anx0", "anx1"}
 INVARIANT Done
 CHECK_DEADLOCK FALSE
 """
